@@ -2,7 +2,7 @@
 """Regenerates MANIFEST.json from checks.json (single source for per-property commands and texts)."""
 import json, os, subprocess
 ROOT = os.path.dirname(os.path.dirname(os.path.abspath(__file__)))
-cfg = json.load(open(os.path.join(ROOT, "checks.json")))
+cfg = {f[:-5]: json.load(open(os.path.join(ROOT, "checks", f))) for f in sorted(os.listdir(os.path.join(ROOT, "checks"))) if f.endswith(".json")}
 props = [json.loads(l)["id"] for l in open(os.path.join(ROOT, "properties.jsonl"))]
 hooks = subprocess.run(["git", "-C", "/repo", "log", "--format=%h", "--grep=^verif:"], capture_output=True, text=True).stdout.split()
 checks = []
